@@ -8,7 +8,7 @@ links (C10).  Preconditions state what DefaultSQLRenderer.render has already che
 from pyvc.verify import contract, loc, loc_list
 from pyvc.speclib import fresh, old
 from textwrap import indent
-from pydbml.classes import Column, Enum, Expression, Table, Index, Note, Reference
+from pydbml.classes import Column, Enum, EnumItem, Expression, Table, Index, Note, Reference
 
 
 # ------------------------------------------------------------------------------------------ spec
@@ -238,6 +238,8 @@ class prepare_text_for_sql:
     pure = True
     ret = 'str'
 
+    assume_at_call = ('ensures_no_single_quote',)
+
     def returns(model):
         return model.text.replace('\\\n', '').replace("'", '"')
 
@@ -337,6 +339,9 @@ class ref_table1:
     def raises_DBMLError(self):
         return len(self.col1) > 0 and mixed_side(self)
 
+    def returns(self):
+        return self.col1[0].table
+
     def ensures_first(self, result):
         return result is self.col1[0].table
 
@@ -353,6 +358,9 @@ class ref_table2:
 
     def raises_DBMLError(self):
         return len(self.col1) > 0 and mixed_side(self)
+
+    def returns(self):
+        return self.col2[0].table
 
     def ensures_first(self, result):
         return result is self.col2[0].table
@@ -514,5 +522,189 @@ class render_reference:
     def raises_TableNotFoundError(model):
         return not all_attached(model)
 
+    def returns(model):
+        return sql_reference(model)
+
     def ensures_fk(model, result):
         return result == sql_reference(model)
+
+
+# ------------------------------------------------------------------------------------------ tables (C03, C04, C05)
+def holds_key(ref, t):
+    """t is the key-holding table of a (non many-to-many) reference: left side for > and -, right side for <"""
+    return ((ref.type == '>' or ref.type == '-') and ref.col1[0].table == t) or \
+        (ref.type == '<' and ref.col2[0].table == t)
+
+
+def refs_wellformed(db):
+    return all(len(r.col1) > 0 and len(r.col2) > 0 and same_table(r.col1) and same_table(r.col2) for r in db.refs)
+
+
+@contract('pydbml.renderer.sql.default.table:get_references_for_sql')
+class get_references_for_sql:
+    properties = ('C04', 'C05', 'C17')
+    params = {'model': 'Table'}
+    pure = True
+
+    def requires_wellformed(model):
+        return model.database is None or refs_wellformed(model.database)
+
+    def raises_UnknownDatabaseError(model):
+        return model.database is None
+
+    def returns(model):
+        return [r for r in model.database.refs if holds_key(r, model)]
+
+    def ensures_key_holder(model, result):
+        return list(result) == [r for r in model.database.refs if holds_key(r, model)]
+
+
+@contract('pydbml.renderer.sql.default.table:get_inline_references_for_sql')
+class get_inline_references_for_sql:
+    properties = ('C04',)
+    params = {'model': 'Table'}
+    pure = True
+
+    def requires_wellformed(model):
+        return model.abstract or (model.database is not None and refs_wellformed(model.database))
+
+    def returns(model):
+        return inline_refs_here(model)
+
+    def ensures_inline_here(model, result):
+        return list(result) == ([] if model.abstract else
+                                [r for r in model.database.refs if holds_key(r, model) and r._inline and r.type != '<>'])
+
+
+def sql_column_notes(t):
+    return ''.join("\n\nCOMMENT ON COLUMN " + sql_name(t) + '."' + c.name + "\" IS '"
+                   + c.note.text.replace('\\\n', '').replace("'", '"') + "';"
+                   for c in t.columns if c.note.text)
+
+
+def columns_ok(t):
+    return all(c.name is not None and c.type is not None
+               and (not isinstance(c.type, Enum) or (c.type.name is not None and c.type.schema is not None))
+               for c in t.columns)
+
+
+@contract('pydbml.renderer.sql.default.table:render_column_notes')
+class render_column_notes:
+    properties = ('C03', 'C13', 'C10')
+    params = {'model': 'Table'}
+    pure = True
+    ret = 'str'
+
+    def requires_checked(model):
+        return model.name is not None and model.schema is not None and columns_ok(model)
+
+    def returns(model):
+        return sql_column_notes(model)
+
+    def ensures_comments(model, result):
+        return result == sql_column_notes(model)
+
+
+from pyvc.speclib import abstract
+from pydbml.renderer.sql.default import DefaultSQLRenderer as _DefaultSQLRenderer
+
+
+@abstract('str')
+def rendered_sql(model):
+    """What DefaultSQLRenderer.render gives for this element in the current heap.  The leaf
+    contracts (render_column, render_index, render_reference, ...) say what that text is; the
+    composite contracts below only say how the pieces are put together."""
+    from pydbml.renderer.sql.default import DefaultSQLRenderer
+    return DefaultSQLRenderer.render(model)
+
+
+def renderable(m):
+    """what the element's own renderer requires (checked by DefaultSQLRenderer.render or implied by
+    the parser's invariants)"""
+    return ((not isinstance(m, Column) or (m.name is not None and m.type is not None and
+                                            (not isinstance(m.type, Enum) or (m.type.name is not None and m.type.schema is not None))))
+            and (not isinstance(m, Index) or (m.table is not None and subjects_ok(m) and m.table.name is not None and m.table.schema is not None))
+            and (not isinstance(m, Reference) or ref_renderable(m)))
+
+
+@contract('pydbml.renderer.sql.default.renderer:DefaultSQLRenderer.render')
+class sql_render:
+    """Dispatch (C16) + refusal (C17) + leaf specification (C03/C04): render(model) raises
+    AttributeMissingError iff a required attribute is None, and otherwise is the DDL text of
+    model's kind."""
+    properties = ('C03', 'C04', 'C16', 'C17', 'C10')
+    params = {'cls': _DefaultSQLRenderer, 'model': 'Union[Column,Index,EnumItem,Expression]'}
+    pure = True
+    ret = 'str'
+
+    def requires_renderable(cls, model):
+        return renderable(model)
+
+    def raises_AttributeMissingError(cls, model):
+        return not required_present(model)
+
+    def returns(cls, model):
+        return rendered_sql(model)
+
+    def ensures_column(cls, model, result):
+        return not isinstance(model, Column) or result == sql_column(model)
+
+    def ensures_index(cls, model, result):
+        return not isinstance(model, Index) or result == sql_index(model)
+
+    def ensures_enum_item(cls, model, result):
+        return not isinstance(model, EnumItem) or result == sql_enum_item(model)
+
+    def ensures_expression(cls, model, result):
+        return not isinstance(model, Expression) or result == '(' + model.text + ')'
+
+
+def inline_refs_here(t):
+    """the inline, non many-to-many references whose key-holding table is t (C04: an inline
+    reference is a clause inside exactly that table's CREATE TABLE)"""
+    return [] if t.abstract else [r for r in t.database.refs
+                                  if holds_key(r, t) and r._inline and r.type != '<>']
+
+
+def ref_renderable(r):
+    return ((r.type == '>' or r.type == '<' or r.type == '-' or r.type == '<>')
+            and len(r.col1) > 0 and len(r.col2) > 0 and same_table(r.col1) and same_table(r.col2)
+            and cols_named(r.col1) and cols_named(r.col2) and all_attached(r)
+            and r.col1[0].table.name is not None and r.col1[0].table.schema is not None
+            and r.col2[0].table.name is not None and r.col2[0].table.schema is not None)
+
+
+def sql_table_body(t):
+    parts = [indent(rendered_sql(c), '  ') for c in t.columns]
+    parts.extend(indent(rendered_sql(i), '  ') for i in t.indexes if i.pk)
+    parts.extend(indent(rendered_sql(r), '  ') for r in inline_refs_here(t))
+    if pk_count(t) > 1:
+        parts.append('  PRIMARY KEY (' + ', '.join('"' + c.name + '"' for c in t.columns if c.pk) + ')')
+    return ',\n'.join(parts)
+
+
+def elements_renderable(t):
+    return (all(renderable(c) and required_present(c) for c in t.columns)
+            and all(renderable(i) and required_present(i) for i in t.indexes)
+            and (t.abstract or (t.database is not None and refs_wellformed(t.database)
+                                and all(renderable(r) and required_present(r) for r in t.database.refs))))
+
+
+@contract('pydbml.renderer.sql.default.table:create_body')
+class create_body:
+    """Inside the parentheses of CREATE TABLE: exactly the columns in order, then the pk indexes,
+    then the inline foreign keys hosted here (each the element's own rendering), then one PRIMARY
+    KEY clause iff several pk columns — nothing else."""
+    properties = ('C03', 'C04', 'C10', 'C16')
+    params = {'model': 'Table'}
+    pure = True
+    ret = 'str'
+
+    def requires_renderable(model):
+        return elements_renderable(model) and all(c.name is not None for c in model.columns)
+
+    def returns(model):
+        return sql_table_body(model)
+
+    def ensures_body(model, result):
+        return result == sql_table_body(model)
